@@ -693,6 +693,10 @@ class Interp:
                         if r is not None:
                             return mkbool(r)
                 r = bv.binop(op, a, b)
+                if self.h is not None and bv.aff_of(a) is not None and bv.aff_of(b) is not None and not (a.is_conc() and b.is_conc()) and \
+                        op in ("Add", "Sub", "Mul", "AddUnchecked", "SubUnchecked", "MulUnchecked") and getattr(self.h, "arith", None) is not None:
+                    # machine arithmetic on affine counters: the affine description is only right while the mathematical result fits the type
+                    self.h.arith.append((op.replace("Unchecked", ""), bv.aff_of(a), bv.aff_of(b), a.w, a.signed))
             except bv.UB as e:
                 self.ub.append(str(e))
                 raise Diverge("UB/overflow: %s" % e)
